@@ -196,6 +196,7 @@ type session struct {
 	contextAgeLock                 sync.RWMutex
 	lock                           sync.RWMutex
 	redialForClientLocked          func() bool // only for client role
+	closedLocally                  int32       // Close() was called: no redial any more
 	seq                            int32
 	status                         int32
 	didCloseNotify                 int32
@@ -329,7 +330,8 @@ func (s *session) Health() bool {
 		return false
 	}
 	if status == statusPassiveClosed {
-		return true
+		// a later call redials, unless the session was closed locally
+		return atomic.LoadInt32(&s.closedLocally) == 0
 	}
 	return false
 }
@@ -815,6 +817,10 @@ func (s *session) Swap() goutil.Map {
 func (s *session) Close() error {
 	s.lock.Lock()
 	defer s.lock.Unlock()
+	// From now on a lost connection is not re-established: if the session
+	// is in the middle of a disconnect, closeLocked does nothing and that
+	// disconnect has to end the session instead of redialing.
+	atomic.StoreInt32(&s.closedLocally, 1)
 	return s.closeLocked()
 }
 
@@ -913,6 +919,9 @@ func (s *session) redialForClient(oldConn net.Conn) bool {
 	}
 	defer s.lock.Unlock()
 	vp("redial.locked", s, 0, 0)
+	if atomic.LoadInt32(&s.closedLocally) == 1 {
+		return false
+	}
 	// Avoid repeated calls from write and readDisconnected methods:
 	// somebody else has redialed in the meantime (holding the lock until the
 	// round was over); if that round failed, this is not a success either
